@@ -8,7 +8,8 @@
 EXTENDS Naturals, Sequences, FiniteSets, TLC, Json
 CONSTANTS MaxPickles
 Class == {"atom", "p0text", "binlen0", "binlen255", "binlen256", "binlen65536", "ints", "memo", "globals",
-          "natural_lo", "natural_hi", "len8"}
+          "natural_lo", "natural_hi", "len8",
+          "nonascii"}      \* text whose encoded length differs from its length in characters (2-, 3-, 4-byte UTF-8, lone surrogates, Latin-1 bytes)
 Trail == {"none", "junk", "truncated"}
 Kind  == {"bytes", "seekable", "file", "buffered", "nonseekable"}      \* seekable = io.BytesIO, file = a real file opened "rb",
                                                                           \* buffered = io.BufferedReader over a raw stream
